@@ -2318,7 +2318,6 @@ func isRangeValue(e *ssa.Extract) bool {
 	return ok && e.Index == 2
 }
 
-
 // inlinedMergeStore (M2'): the value stored under the key in a member walk that has the
 // value-level merge inlined. Returns "" when every value that can be stored is admissible.
 func (b *Body) inlinedMergeStore(fn *ssa.Function, ml *memberLoop, x ssa.Value, at ssa.Instruction, mf *mergeFns) string {
@@ -2405,7 +2404,6 @@ func (b *Body) inlinedMergeStore(fn *ssa.Function, ml *memberLoop, x ssa.Value, 
 	return check(x, at.Block())
 }
 
-
 // behindFailedObjectProbe: the call lies on the failure edge of a call that turns a node
 // other than the call's own argument into an object container (the target is not an object).
 func (b *Body) behindFailedObjectProbe(fn *ssa.Function, cs ssa.CallInstruction) bool {
@@ -2432,7 +2430,6 @@ func (b *Body) behindFailedObjectProbe(fn *ssa.Function, cs ssa.CallInstruction)
 	})
 	return found
 }
-
 
 // mergeResultProvenance (M7): the object that doMergePatch hands to the encoder is the decoded
 // document after the member merge, or — only where the document is not an object — the decoded
